@@ -14,7 +14,7 @@ CHECKS = {
         text="Library.tla states the crate forest, its operations with explicit outcomes and the observation function of "
              "every structural query; TLC proves ForestInv/QueriesAgree/RejectNoEffect/NoResurrection/OrderStable on the "
              "bounded instance and prints every transition; every transition is replayed through the real library "
-             "(quick: 13 schemas, thorough: all 18) and TLC validates each recorded call + complete observation against "
+             "(quick: 9 schemas incl. two that rotate with the seed, thorough: all 18; half of the workloads with multi-byte UTF-8 names) and TLC validates each recorded call + complete observation against "
              "the same actions. A change that makes any query disagree with the forest, lets a rejected call have an "
              "effect, or accepts a cycle is a trace rejection.",
         design="§7 C07",
@@ -51,8 +51,9 @@ CHECKS = {
              "tracks holding foreign blobs planted behind the library's back (TraceTrackBlobs: the planted payload must still be there). "
              "Table level: every read function of track_table (48 per-column getters, get, exists, all_ids), playlist_table, "
              "playlist_entity_table, change_log_table and information_table under the same rule (TraceTableApi, TraceV2Table, "
-             "TraceChangeLog).",
-        design="§7 C16, §13.10",
+             "TraceChangeLog), and the high-level observers (crate and track handles) on the stores only the table API can build "
+             "(entities of tracks that have no row, rows with NULLs create_track() never writes).",
+        design="§7 C16, §13.10, §13.15",
         note="observers = all public getters/listings/lookups of database, crate, track used by the driver; " + TRUST,
         technique="TLA+ spec + TLC trace validation of instrumented observation phases (statement-level shim)"),
 }
@@ -63,10 +64,13 @@ CHECKS.update({
         text="Library.tla's Reopen action (UNCHANGED state); histories from the bounded graphs are executed on libraries created on "
              "disk and after EVERY call all handles are released, database_exists() and load_database() are called and the complete "
              "observation is validated by TLC against the abstract state, together with the reported schema (sentinel-initialised "
-             "out-parameter).",
-        design="§7 C10",
+             "out-parameter). Whole sessions on one connection with reopen points, random long histories, and (MultiConn.tla, invariant "
+             "Coherent) histories in which a seed-chosen half of the calls goes through a SECOND database object loaded from the same "
+             "directory while the first stays open: both connections are observed after every call and both observations must be the "
+             "shared abstract state.",
+        design="§7 C10, §13.16",
         note="closing at every prefix of every replayed history; crate/membership/track-existence state here, track fields in C01/C06; " + TRUST,
-        technique="TLA+ spec + TLC trace validation of reopen-after-every-call executions on disk"),
+        technique="TLA+ spec (Library.tla, MultiConn.tla) + TLC model checking + TLC trace validation of reopen / two-connection executions on disk"),
     "C11": dict(
         category="model_checking",
         text="RawStore.tla states, per schema family, how the raw tables must store the abstract state (three redundant crate "
@@ -87,10 +91,17 @@ CHECKS.update({
              "faulted attempt to leave exactly the rows it found. Crash points: on libraries on disk every call is also attempted in a "
              "forked process that dies right before its k-th statement (all k); the reloaded library must show the unchanged state "
              "or - once the tables differ - the complete effect of the call (TraceLibrary 'crash' records). TraceTxn states the "
-             "transaction discipline (at most one atomic unit per call) on the statement log of every complete call.",
-        design="§7 C14, §13.6, §13.8, §13.11",
+             "transaction discipline (at most one atomic unit per call) on the statement log of every complete call. Lock sweep "
+             "(Contention.tla): every call is also attempted while another connection takes an EXCLUSIVE / RESERVED / SHARED lock right "
+             "before its k-th statement, so that SQLite itself refuses statements with SQLITE_BUSY; TraceContention predicts every "
+             "statement result from the locking protocol and requires stop-at-refusal, rollback, throw, no lock or transaction left; "
+             "the statement programs seen are model-checked under all schedules of the other connection (AllOrNothing, AtRest, Usable, "
+             "termination). Syscall-level crash points (CommitProtocol.tla): the process dies right before the n-th file-modifying "
+             "system call of SQLite's VFS; TraceCommit requires the files found changed to be an outcome the commit-protocol model "
+             "predicts.",
+        design="§7 C14, §13.6, §13.8, §13.11, §13.14, §13.17",
         note="a failing statement has no effect of its own; ROLLBACK (the recovery action) is not failed; " + TRUST,
-        technique="TLA+ spec + exhaustive statement-level fault enumeration + TLC trace validation"),
+        technique="TLA+ specs (Library, V1Store/V2Store, Contention, CommitProtocol) + TLC model checking + exhaustive statement-level fault, lock and crash-point enumeration on the real library + TLC trace validation"),
 })
 
 CHECKS.update({
@@ -220,8 +231,10 @@ CHECKS.update({
              "outcome, stored rows and every read function to be what the storage-layer model V2Rows predicts (the two boolean "
              "columns as written). change_log_table / information_table: every transition of ChangeLog.tla (track writes feeding the log "
              "through the schema's triggers, add, played-indicator update) and TraceChangeLog requires outcome, rows and all / after(k) / "
-             "last / get to be what ChangeLog!Apply predicts.",
-        design="§7 C18, §13.9, §13.10",
+             "last / get to be what ChangeLog!Apply predicts. The stores the table API builds are also read through the high-level API "
+             "(crates(), root_crates(), every crate's name / parent / children / descendants / tracks; tracks() and snapshot() of every "
+             "row), which must be the same view of the predicted rows.",
+        design="§7 C18, §13.9, §13.10, §13.15",
         note="time points at whole-second resolution; blob columns compared by digest; columns a schema lacks are unconstrained; " + TRUST,
         technique="TLA+ row-store spec + TLC-enumerated operation sequences + replay + relational TLC trace validation"),
 })
